@@ -108,4 +108,59 @@ func (*Scanner).errorToken [C13, C03]
   ensures result.Type == token.ILLEGAL && result.Literal == msg
   ensures result.Range.Start.Line == s.startLine && result.Range.Start.Column == s.startColumn
   ensures result.Range.End.Line == s.line && result.Range.End.Column == s.column
+
+func (*Scanner).skipWhitespace [C13, C03]
+  safe
+  requires J(s) && P(s)
+  modifies scanner.Scanner.cur, scanner.Scanner.column, scanner.Scanner.line, scanner.Scanner.indent, scanner.Scanner.shouldIndent
+  ensures J(s) && P(s) && s.cur >= old(s.cur) && s.start == old(s.start)
+  // only blanks were skipped, and the scan stops at the first non-blank
+  ensures allBlank(s, old(s.cur), s.cur)
+  ensures s.cur < len(s.src) ==> !isBlank(curRune(s))
+  loop 0 invariant J(s) && P(s) && s.cur >= old(s.cur) && s.start == old(s.start) && allBlank(s, old(s.cur), s.cur)
+  loop 0 decreases len(s.src) - s.cur
+
+func (*Scanner).number [C13, C03]
+  safe
+  requires J(s) && P(s)
+  modifies scanner.Scanner.cur, scanner.Scanner.column, scanner.Scanner.shouldIndent, scanner.Scanner.shouldCapitalize
+  ensures J(s) && P(s) && s.cur >= old(s.cur) && s.start == old(s.start)
+  ensures result.Type == token.INT || result.Type == token.FLOAT
+  ensures result.Literal == stringOf(subslice(s.src, s.start, s.cur))
+  ensures result.Range.Start.Line == s.startLine && result.Range.Start.Column == s.startColumn
+  ensures result.Range.End.Line == s.line && result.Range.End.Column == s.column
+  loop 0 invariant J(s) && P(s) && s.cur >= old(s.cur) && s.start == old(s.start)
+  loop 0 decreases len(s.src) - s.cur
+  loop 1 invariant J(s) && P(s) && s.cur >= old(s.cur) && s.start == old(s.start)
+  loop 1 decreases len(s.src) - s.cur
+
+// keyword lookup with the case-folding rule: the literal itself, else its lower-case form
+func (*Scanner).identifierType [C13, C03]
+  safe
+  requires J(s)
+  modifies nothing
+  ensures result == (token.kw(stringOf(subslice(s.src, s.start, s.cur))) != token.IDENTIFIER
+                       ? token.kw(stringOf(subslice(s.src, s.start, s.cur)))
+                       : token.kw(strings.ToLower(stringOf(subslice(s.src, s.start, s.cur)))))
+
+func (*Scanner).identifier [C13, C03]
+  safe
+  requires J(s) && P(s)
+  modifies scanner.Scanner.cur, scanner.Scanner.column, scanner.Scanner.shouldIndent, scanner.Scanner.shouldCapitalize, parser.parser.errored
+  ensures J(s) && P(s) && s.cur >= old(s.cur) && s.start == old(s.start)
+  ensures result.Literal == stringOf(subslice(s.src, s.start, s.cur))
+  ensures result.Type == (token.kw(result.Literal) != token.IDENTIFIER ? token.kw(result.Literal) : token.kw(strings.ToLower(result.Literal)))
+  ensures result.Range.Start.Line == s.startLine && result.Range.Start.Column == s.startColumn
+  ensures result.Range.End.Line == s.line && result.Range.End.Column == s.column
+  loop 0 invariant J(s) && P(s) && s.cur >= old(s.cur) && s.start == old(s.start) && s.startLine == old(s.startLine) && s.startColumn == old(s.startColumn)
+  loop 0 decreases len(s.src) - s.cur
+
+// escape sequences: exactly \a \b \n \r \t \\ and the closing quote are accepted; anything else is reported
+func (*Scanner).scanEscape [C13, C19, C03]
+  safe
+  requires J(s) && P(s) && s.cur < len(s.src) && curRune(s) == 92
+  modifies scanner.Scanner.cur, scanner.Scanner.column, scanner.Scanner.shouldIndent, parser.parser.errored
+  ensures J(s) && P(s) && s.cur >= old(s.cur) && s.cur < len(s.src) && curRune(s) != 10 && s.start == old(s.start)
+  ensures result ==> s.cur == old(s.cur) + 1
+  ensures !result ==> s.cur == old(s.cur)
 @*/
